@@ -4,6 +4,8 @@ import PdbVerif.Driver.GCommon
 import PdbVerif.Model.Fnat
 import PdbVerif.Model.SuperposeDb
 import PdbVerif.Gen.Rmsd
+import PdbVerif.Driver.ExtSup
+import PdbVerif.Driver.ExtSim
 
 namespace Driver.ModelG
 open Lean Driver Driver.GCommon
@@ -93,6 +95,6 @@ def op (name : String) (j : Json) : Except String (Option Json) := do
     pure (some (Json.mkObj [("info", info), ("result", exceptJ (fun (o : Model.SupDb.Out) => Json.mkObj [
       ("mobile", atomsJ o.mobile), ("target", atomsJ o.target),
       ("files", Json.arr (o.files.map (fun f => Json.arr #[strJ f.1, Json.arr (f.2.map strJ).toArray])).toArray)]) res)]))
-  | _ => pure none
+  | _ => (do match ← ExtSup.op name j with | some r => pure (some r) | none => (do match ← ExtSim.op name j with | some r => pure (some r) | none => pure none))
 
 end Driver.ModelG
